@@ -1438,6 +1438,102 @@ mod router_diff {
         }
         seq.len()
     }
+    /// string literals that differ only in whitespace runs / tabs / newlines / letter case / trailing
+    /// or leading spaces, stored in separate rows and then queried back to back WITHOUT any write in
+    /// between, cache on and cache off, each answer compared with the direct engine call
+    fn literal_variants(r: &mut Rng, random: bool, dist: &mut Dist, hits: &mut Hits) -> usize {
+        let base: Vec<&str> = vec![
+            "Ann Lee", "Ann  Lee", "Ann   Lee", "Ann\tLee", "Ann\nLee", "Ann Lee ", " Ann Lee", "ann lee", "ANN LEE", "AnnLee", "Ann \t Lee",
+            "Ann Lee  ", "", " ", "  ",
+        ];
+        let mut names: Vec<&str> = base.clone();
+        if random {
+            r.shuffle(&mut names);
+            names.truncate(r.range(4, 9) as usize);
+        }
+        let mut cached = QueryRouter::new();
+        cached.init_cache();
+        let plain = QueryRouter::new();
+        let reference = QueryRouter::new();
+        let mut trace: Vec<String> = vec![];
+        let mut n = 0usize;
+        let ddl = "CREATE TABLE people (id INT NOT NULL, name TEXT NOT NULL)";
+        for q in [&cached, &plain] {
+            let _ = q.execute_parsed(ddl);
+        }
+        reference
+            .relational()
+            .create_table("people", Schema::new(vec![Column::new("id", ColumnType::Int), Column::new("name", ColumnType::String)]))
+            .unwrap();
+        trace.push(ddl.to_string());
+        // one row per variant (text INSERT on the text routers, direct insert on the reference)
+        for (i, nm) in names.iter().enumerate() {
+            // a raw line break cannot stand inside a literal (the lexer ends it there): written as \n
+            let sql = format!("INSERT INTO people (id, name) VALUES ({}, '{}')", i + 1, nm.replace('\n', "\\n"));
+            for q in [&cached, &plain] {
+                let _ = q.execute_parsed(&sql);
+            }
+            let mut m = HashMap::new();
+            m.insert("id".to_string(), Value::Int(i as i64 + 1));
+            m.insert("name".to_string(), Value::String((*nm).to_string()));
+            let _ = reference.relational().insert("people", m);
+            trace.push(sql);
+        }
+        let ids = |rows: &[Row]| {
+            let mut v: Vec<String> = rows.iter().map(|r| format!("{}:{:?}", r.id, r.get("name"))).collect();
+            v.sort();
+            v
+        };
+        // back-to-back reads, several rounds so that every text is asked again once it is cached;
+        // also layout variants of the statement itself (outside the literal)
+        let mut order: Vec<usize> = (0..names.len()).collect();
+        for round in 0..3 {
+            if random || round > 0 {
+                r.shuffle(&mut order);
+            }
+            for &i in &order {
+                let nm = names[i];
+                let nm_sql = nm.replace('\n', "\\n");
+                for (op, sqlop) in [(0u64, "="), (1, "!=")] {
+                    if op == 1 && round > 0 {
+                        continue;
+                    }
+                    let layout = match (round + i) % 3 {
+                        0 => format!("SELECT * FROM people WHERE name {sqlop} '{nm_sql}'"),
+                        1 => format!("SELECT  *  FROM people\nWHERE name {sqlop}   '{nm_sql}'"),
+                        _ => format!("SELECT * FROM people WHERE\tname {sqlop} '{nm_sql}' "),
+                    };
+                    let cond = if op == 0 { Condition::Eq("name".into(), Value::String(nm.to_string())) } else { Condition::Ne("name".into(), Value::String(nm.to_string())) };
+                    let want = match reference.relational().select("people", cond) {
+                        Ok(rows) => format!("rows {:?}", ids(&rows)),
+                        Err(_) => "err".to_string(),
+                    };
+                    trace.push(layout.clone());
+                    n += 1;
+                    dist.hit("cached.literal_variant_select");
+                    for (q, class, how) in [(&plain, "text-vs-direct", "cache off"), (&cached, "text-vs-direct-cache-on", "query cache on")] {
+                        let got = match guarded(AssertUnwindSafe(|| q.execute_parsed(&layout).map_err(|e| e.to_string()))) {
+                            Ok(Ok(QueryResult::Rows(rows))) => format!("rows {:?}", ids(&rows)),
+                            Ok(Ok(other)) => format!("other {other:?}"),
+                            Ok(Err(_)) => "err".to_string(),
+                            Err(p) => format!("panic {p}"),
+                        };
+                        if got != want {
+                            hits.push(
+                                class,
+                                &format!("literal variants: {layout:?} through execute_parsed ({how}) -> {got}; direct engine call -> {want}; no write since the inserts; reads so far: {:?}", &trace[names.len() + 1..]),
+                                json!({"trace": trace.clone()}),
+                            );
+                            dist.hit(if class == "text-vs-direct" { "cached.differs.cache_off" } else { "cached.differs.cache_on" });
+                            return n;
+                        }
+                    }
+                }
+            }
+        }
+        n
+    }
+
     /// the cache must be transparent: the same statement texts on a router with the query cache on
     /// and on one without give the same answers (graph / vector families: NEIGHBORS, SIMILAR are cached)
     fn transparent(stmts: &[String], tag: &str, dist: &mut Dist, hits: &mut Hits) -> usize {
@@ -1466,7 +1562,10 @@ mod router_diff {
     }
 
     pub fn run_cached(r: &mut Rng, n_scen: usize, dist: &mut Dist, hits: &mut Hits) -> usize {
-        let mut gtotal = 0usize;
+        let mut gtotal = literal_variants(r, false, dist, hits);
+        for _ in 0..(n_scen / 12).max(3) {
+            gtotal += literal_variants(r, true, dist, hits);
+        }
         {
             let corpus: Vec<String> = [
                 "NODE CREATE person {name: 'a'}", "NODE CREATE person {name: 'b'}", "NODE CREATE person {name: 'c'}",
